@@ -8,13 +8,72 @@ VERIF = os.path.dirname(os.path.dirname(os.path.abspath(__file__)))
 
 # id -> (technique, level text, level note, design section)
 CHECKS = {
-    "C12": ("runtime contracts (icontract post-conditions + snapshot) on the real DecayChain.flatten under an enumerated and random workload; "
-            "LINE-event step budget for divergence",
-            "Exploration: every rooted tree shape up to 5 (quick) / 6 (thorough) decaying particles x multiplicities 1..3 x every stable subset x "
-            "orders of the decays mapping, plus random DAG-shaped chains; each flatten() call is judged by post-conditions computed from a "
-            "pre-call snapshot (leaves multiset, bf product, metadata, original unchanged) and by a direct comparison with the generator's model.",
-            "Held on the executions observed; Counter arithmetic and float multiplication (rel 1e-9) trusted; chains acyclic, mother not in S.",
-            "3/C12"),
+    "C01": ("reference-model monitor: generated .dec texts (oracle = the abstract model) and the shipped corpus (oracle = independent reference reader) compared with every decay-table query of the real parser",
+            "Exploration: quota-driven generated files over the whole label alphabet, every numeric literal form and every published model name, plus 156 shipped files incl. both master files; "
+            "every line of every table is compared field by field, through the public queries the property names.",
+            "Held on the texts generated plus the corpora; texts are in L_dec (DESIGN 2.1); corpus files judged only where the reference reader understands them.", "3/C01"),
+    "C02": ("metamorphic monitor: snapshots of every public query before/after gap-level semantics-preserving rewrites (R1..R12) and repackaging (string, file, BOM, multi-file)",
+            "Exploration: random compositions of 12 rewrites at random subsets of all gaps of generated files, all tests/data files and the master files (sliced in quick, whole in thorough); "
+            "each rewrite also applied in isolation; the relation itself is the oracle.",
+            "Held on the variants generated; parameter wrapping only on non-empty lists, splits only between top-level statements.", "3/C02"),
+    "C03": ("reference-model monitor: generated Decay/Alias/ChargeConj/CopyDecay/CDecay files parsed with both switch values against the reference conjugation semantics; corpus CDecay statements",
+            "Exploration: statement-order shuffled files with both ChargeConj orientations, aliases, unknown and self-conjugate daughters, precedence and missing-source cases, both values of the switch; "
+            "177 CDecay statements of the master files against the table oracle.",
+            "Held on the files generated; one CDecay per name, consistent ChargeConj declarations; name tables of the particle package are the ground truth.", "3/C03"),
+    "C04": ("runtime contracts (icontract) on charge_conjugate_name / DaughtersDict.charge_conjugate / DecayMode.charge_conjugate at every import site + exhaustive enumeration of both name tables",
+            "Exploration, exhaustive over names: all 806 EvtGen and 1014 PDG names (cold, warm and evicting lru_cache), random final states / modes with multiplicities and metadata, "
+            "cross-layer agreement with CDecay-created tables.",
+            "Oracle read from the raw csv tables of the particle package (not through Particle.invert()).", "3/C04"),
+    "C05": ("reference-model + metamorphic monitor: decay tables of a file versus its textual expansion (Define values, ModelAlias bodies), last definition wins",
+            "Exploration: generated files with definitions before/between/after uses, redefinitions, negated and +prefixed uses, aliases with Define'd parameters, uses in copied and conjugated tables; "
+            "each file is also parsed in textually expanded form and both table sets must coincide.",
+            "Held on the files generated; Define'd names do not start with a sign; aliases stand for published models.", "3/C05"),
+    "C06": ("reference-model monitor with exhaustive enumeration: all 135 published names x 8 position contexts, all prefix pairs, user-registered names (special characters), near-miss words must be rejected",
+            "Exploration, exhaustive over the published list and its prefix pairs in every run; several hundred user-registered names (one or several registration calls) and near-miss unknown words.",
+            "Any exception counts as rejection; neighbouring labels extend model names by letters, digits, '_' only.", "3/C06"),
+    "C07": ("reference-model monitor: all eleven global-declaration queries versus dict semantics computed from statement order, exact types; corpus versus reference reader",
+            "Exploration: generated files with 0..8 statements of each of the 14 kinds in any order, a quota of repeated names per kind, repeated lineshape settings (must raise), width defaults through aliases.",
+            "Held on the files generated; reference widths from the particle data table.", "3/C07"),
+    "C08": ("history checker: after every step of a history of queries / mutations of returned values / re-parsing the instance's full snapshot equals that of a fresh instance; identity walk over hooked state for node sharing",
+            "Exploration: all histories of length 2 (quick) / 3 (thorough) over 14 operation kinds on 5 fixed files plus random histories up to length 40 on generated files; "
+            "structural invariant 'derived tables own their nodes' checked at the quiescent point after each parse().",
+            "The identity walk reads the private _parsed_decays; if that attribute disappears it degrades to 'not observed'.", "3/C08"),
+    "C09": ("runtime contract (icontract) on the real build_decay_chains (top-level calls) + direct comparison with the unfolding of the generator's abstract tables; LINE-event step budget",
+            "Exploration: acyclic generated table sets x all subsets S (small sets) or a covering sample, list/tuple/set, not-found error; master-file mothers below a size bound.",
+            "Held on the table sets generated and the corpus mothers explored; acyclic tables only.", "3/C09"),
+    "C10": ("runtime contract (icontract) on the real expand_decay_modes: count by sum-of-products DP and multiset of decay paths versus descriptors read back by bracket matching",
+            "Exploration: generated acyclic table sets (branching 0..6, aliases decaying and not, empty blocks, zero-daughter lines) and master-file mothers with bounded path count.",
+            "Names have balanced parentheses and no blanks; default descriptor format.", "3/C10"),
+    "C11": ("runtime contracts (icontract) on DecayChain.to_dict / DecayMode.to_dict (from_dict must give back the object) + direct comparison with the generator's chain; four constructions of a final state",
+            "Exploration: enumerated tree shapes and random DAG-shaped chains with JSON-like metadata, parser-produced chains, every PDG ID of the EvtGen table through from_pdgids.",
+            "Structural equality on public attributes; model_params None == ''.", "3/C11"),
+    "C12": ("runtime contracts (icontract post-conditions + snapshot) on the real DecayChain.flatten under an enumerated and random workload; LINE-event step budget for divergence",
+            "Exploration: every rooted tree shape up to 5 (quick) / 6 (thorough) decaying particles x multiplicities 1..3 x every stable subset x orders of the decays mapping, plus random DAG-shaped chains.",
+            "Counter arithmetic and float multiplication (rel 1e-9) trusted; chains acyclic, mother not in S.", "3/C12"),
+    "C13": ("runtime contract (icontract) on DecayChain.to_string (descriptor read back by bracket matching) + order-independence, injectivity and 8 bracketing pattern pairs",
+            "Exploration: enumerated and random chains over names with parentheses, quotes and signs; each tree rendered in 3..24 input orders; reader recognises top-level and nested patterns separately.",
+            "Names without blanks and with balanced parentheses; pattern brackets do not occur in names.", "3/C13"),
+    "C14": ("history checker: well-nested enter/leave/set/render histories on the real DescriptorFormat compared after every step with a stack model; shadow-stack contracts (icontract) underneath",
+            "Exploration, exhaustive over a reduced 9-symbol alphabet up to length 7 (quick) / 8 (thorough) plus random histories up to length 40 over the full alphabet.",
+            "Only with-shaped enter/leave sequences; process-wide format reset between histories.", "3/C14"),
+    "C15": ("reference-model monitor: DOT source of the real viewer read back by Graphviz (`dot -Tjson`) and compared with a recursive reading of the chain dictionary; identifier uniqueness across graphs",
+            "Exploration: chain dictionaries from generated table sets through the real parser and from DecayChain.to_dict(); several viewers per process.",
+            "Graphviz and the particle package's LaTeX->HTML conversion are trusted.", "3/C15"),
+    "C16": ("reference-model monitor: captured stdout of print_decay_modes read row by row and compared with the abstract table under every option combination",
+            "Exploration: generated tables with ties and 8-9 significant digits over 1e-12..1, all 80 option combinations, mother by PDG name; stored values compared before/after.",
+            "7-significant-digit rounding allows a relative error of 6e-7 per value.", "3/C16"),
+    "C17": ("reference-model monitor: generated AmpGen option texts (oracle = abstract model, golden PDG IDs) versus what the real read_ampgen returns; shipped model versus an independent line reader",
+            "Exploration: option texts with nested partial lines, 0..3 alternatives per resonance name, all tag forms, CRLF/comments/indentation, parameter and constant rows, option 0/1/absent.",
+            "Golden pool of 29 names; order inside one expansion group not compared; line.fix not compared.", "3/C17"),
+    "C18": ("runtime contract (icontract) on ModelDecay.list_structure versus brute force, exhaustively enumerated; emitted C++ (read) and Python (executed against a recording stand-in) versus a per-amplitude oracle",
+            "Exploration, (a) exhaustive: all binary tree shapes x leaf labellings x 256 event types; (b) covering design over 11 spin structures x 4 lineshape kinds x 3 event types x 2 languages.",
+            "Structure-key -> spin-factor table is the library's published data; golden spin table checked against the particle data.", "3/C18"),
+    "C19": ("differential monitor: C++ output (read) versus Python output (executed against a recording stand-in for goofit); def-before-use scan / NameError; returned string vs printed vs command line",
+            "Exploration: generated four-body files with fit parameters, spline and K-matrix families, fixed and free couplings, and the shipped model; three entry points per language.",
+            "GooFit itself is not installed: vocabulary of the stand-in from the stored reference output; sA_0 exempt for the shipped model only.", "3/C19"),
+    "C20": ("history checker over processes: every call of a history run in one fresh interpreter versus the same single call in its own fresh interpreter; PYTHONHASHSEED sweep; byte-exact reproducibility",
+            "Exploration: all 36 ordered pairs of a 6-file pool (entry points rotated over 25 ordered pairs), random longer histories, 2 (quick) / 8 (thorough) hash seeds.",
+            "Independent declaration blocks compared as multisets; name lookups memoised inside the child interpreters; anchors not traced (child processes).", "3/C20"),
 }
 
 NOT_BUILT = {
